@@ -439,3 +439,19 @@ def splice_loops(body, contract):
 def callee_decl(fi, contract, exclude=()):
     """prototype + contract clauses of a callee that is replaced by its contract"""
     return fi.proto() + '\n' + contract.emit_clauses(exclude, mode='replace') + '\n;'
+
+
+def raw_def_text(proj, qualname, select=None, srcrel=None):
+    """text of a definition (source file or inline in the header), for dependency scanning"""
+    cls, name = qualname.split('::')
+    try:
+        mi = method_from_header(proj, cls, name, 'double', select)
+        if mi.inline_body is not None and srcrel is None:
+            return mi.inline_body
+    except ExtractError:
+        pass
+    try:
+        clean = proj.clean(srcrel or source_of(cls))
+        return X.find_function_def(clean, qualname, select).body
+    except Exception:
+        return ''
